@@ -20,7 +20,8 @@ EXPLANATION = (
     "parsed state machine ARN (service 'states', region and account of that ARN, resource_type 'execution', resource = machine name + ':' + "
     "NAME) and every site that derives the machine ARN back uses rpartition(':') -> parse_arn -> resource_type 'stateMachine' -> create_arn; "
     "(R3) every NAME at a mint site is validated by valid_name on a dominating path or generated (uuid / event id); (R4) create_arn's format "
-    "and parse_arn's split agree on six ':'-separated fields in the same order. Not decided: enumeration of all strings.")
+    "and parse_arn's split agree on six ':'-separated fields in the same order. Not decided: enumeration of all strings."
+    " (R9) every place that mints an execution ARN from a name taken from a request or from a state's Parameters validates the name first (the REST handlers do, with valid_name); reported on the current tree as D74 (the states:startExecution launcher).")
 RULE_TEXT = "obligation = one validator / mint site / split site / structural fact; non-trivial = distinct (rule, site)"
 
 
@@ -276,6 +277,8 @@ def r5(chk, ctx):
 
 
 def run(chk, ctx):
+    from . import round5
+    round5.minted_execution_names_are_validated(chk, ctx)
     from . import generic
     generic.definite_assignment(chk, ctx, ['arn'], "C17.DA")   # no local is read before it is bound (UnboundLocalError = an arbitrary exception)
     r5(chk, ctx)
